@@ -138,7 +138,45 @@ def one(ctx, rng):
     ctx.sample({"spec": spec, "state": x.tolist()}, cap=3)
 
 
+def reused_analysis_object(ctx, rng):
+    """one SensitivityAnalysis object kept while the model's parameters are changed (a parameter sweep): the Jacobian is the
+    one of the parameters the model has now, and computing it leaves them as they are."""
+    import sympy
+    from bioscrape.analysis import SensitivityAnalysis
+    spec = {"species": ["A", "B", "C"], "reactions": [
+        {"reactants": ["A", "B"], "products": ["C"], "prop": {"type": "massaction", "k": "kb"}},
+        {"reactants": ["C"], "products": ["A", "B"], "prop": {"type": "massaction", "k": "ku"}},
+        {"reactants": [], "products": ["A"], "prop": {"type": "hillpositive", "k": "k", "K": "K", "n": "n", "s1": "C"}},
+        {"reactants": ["A"], "products": [], "prop": {"type": "massaction", "k": "d"}}],
+        "params": {"kb": 0.5, "ku": 1.0, "k": 2.0, "K": 2.0, "n": 2.0, "d": 0.3}, "ic": {"A": 1, "B": 1, "C": 1}}
+    M = build_model(spec)
+    sl = M.get_species_list()
+    A, B, C, kb = sympy.symbols("A B C kb")
+    sym = {"A": A, "B": B, "C": C}
+    f = {"A": -kb * A * B + 1.0 * C + 2.0 * (C / 2.0) ** 2 / (1 + (C / 2.0) ** 2) - 0.3 * A, "B": -kb * A * B + 1.0 * C, "C": kb * A * B - 1.0 * C}
+    x = np.array([2.0, 3.0, 1.5])
+    sa = SensitivityAnalysis(M)
+    for kb_now in (0.5, 1.0, 4.0):
+        M.set_params({"kb": kb_now})
+        for method in METHODS:
+            case = {"scenario": "analysis object reused after set_params", "kb": kb_now, "method": method}
+            ctx.begin_case(case)
+            J = np.array(sa.compute_J(x.copy(), method=method))
+            ctx.evaluated()
+            subs = {sym[s]: float(v) for s, v in zip(sl, x)}
+            subs[kb] = kb_now
+            Jt = np.array([[float(sympy.diff(f[si], sym[sj]).subs(subs)) for sj in sl] for si in sl])
+            tol = {"fourth_order_central_difference": 1e-6, "central_difference": 1e-3}.get(method, 5e-2)
+            now = float(dict(M.get_parameter_dictionary())["kb"])
+            if np.max(np.abs(J - Jt)) > tol or now != kb_now:
+                ctx.violation("jacobian/reused-object/" + method, "analysis object kept while kb was set to %g: max |J - analytic| = %g (tolerance %g); kb after the call = %g"
+                              % (kb_now, float(np.max(np.abs(J - Jt))), tol, now), dict(case, J=J.tolist(), analytic=Jt.tolist(), kb_after=now))
+                return
+            ctx.count("reused_object_cases")
+
+
 def run(ctx):
+    reused_analysis_object(ctx, ctx.rng)
     n = 25 if ctx.quick() else 500
     for i in range(n):
         one(ctx, ctx.rng)
